@@ -214,6 +214,8 @@ def run(rep):
     if wrongly or len(cans) not in a:
         raise tlc.MachineryError(f"canary failure: accepted {wrongly}; control accepted={len(cans) in a}")
     rep.extra["canaries_rejected"] = [c[0] for c in cans]
+    # every substitution the frozen test-suite corpus triggers (hook events; output-side clauses are for the generator's own forms)
+    _rp.corpus_part(rep, PROP, refs=True)
 
 
 def replay(rep, case):
